@@ -5,10 +5,15 @@
   the reference model.  A line prefixed with `ref` is evaluated with the hand-written reference
   model (Gama/Model/Stats.lean) instead: tools/props/c09.py uses the pair to locate an argument
   where a regenerated formula left the reference (grid over the guard boundaries).
+  Op `cidx` runs the regenerated loop of `Cluster<Observation>::update()` and `Cluster::stdDev`
+  (Gama/Gen/ClusterUpdate.lean; `ref`: Gama/Model/ClusterIndex.lean) on the activity pattern and the covariance
+  diagonal of a real cluster; Props/C09Cluster.lean proves the two equal and that the value is the observation's own.
 -/
 import Gama.Proto
 import Gama.Model.Stats
 import Gama.Gen.StatsGen
+import Gama.Model.ClusterIndex
+import Gama.Gen.ClusterUpdate
 open Gama Gama.Proto
 
 def act? (s : String) : Option Stats.SigmaAct :=
@@ -41,6 +46,10 @@ structure Impl where
   xmlRatio : Float → Float → Int → Float
   err : Float → Float → Float → Float × Float
   hw : Float → Float → Float
+  /-- `cluster_index` of the observation at a position of its cluster's list after `Cluster::update()` -/
+  cidx : List Cov.ObsInfo → Nat → Option Nat
+  /-- `Cluster::stdDev(int)` -/
+  csd : Cov.CovMat Float → Nat → Float
 
 def genImpl : Impl where
   dof := StatsGen.degreesOfFreedom
@@ -61,6 +70,8 @@ def genImpl : Impl where
   xmlRatio := StatsGen.xmlRatio
   err := StatsGen.errObsAdj
   hw := StatsGen.confHalfWidth
+  cidx := ClusterGen.clusterIndex
+  csd := ClusterGen.stdDev
 
 def refImpl : Impl where
   dof := Stats.degreesOfFreedom
@@ -81,6 +92,24 @@ def refImpl : Impl where
   xmlRatio := Stats.xmlRatio
   err := Stats.errObsAdj
   hw := Stats.confHalfWidth
+  cidx := Cov.clusterIndex
+  csd := Cov.stdDevAt
+
+/-- `cidx k flags d_1 … d_n`: the observation at position `k` of a cluster whose observations have the `active()`
+    flags `flags` (0/1 per observation, list order) and whose covariance matrix has the diagonal `d`; answers the
+    `cluster_index` `Cluster::update()` assigns and `Observation::stdDev()` = `cluster->stdDev(cluster_index)`.
+    (Only the diagonal is read by `stdDev`, so the matrix is rebuilt with band 0.) -/
+def evalCidx (I : Impl) (k flags : String) (ds : List String) : String :=
+  match k.toNat?, ds.mapM float? with
+  | some k, some ds =>
+    if flags.toList.all (fun c => c == '0' || c == '1') then
+      let obs : List Cov.ObsInfo := flags.toList.map fun c => ⟨c == '1', 1⟩
+      let cov : Cov.CovMat Float := ⟨ds.length, 0, ds.toArray⟩
+      match I.cidx obs k with
+      | some ci => s!"ok {ci} " ++ renderAll [I.csd cov ci]
+      | none => "ok not-assigned " ++ renderAll [(0.0 / 0.0 : Float)]
+    else "bad-op"
+  | _, _ => "bad-op"
 
 def eval (I : Impl) (toks : List String) : String :=
     match toks with
@@ -139,6 +168,7 @@ def eval (I : Impl) (toks : List String) : String :=
       match float? sd, float? kki with
       | some sd, some kki => okF [I.hw sd kki]
       | _, _ => "bad-op"
+    | "cidx" :: k :: flags :: ds => evalCidx I k flags ds
     | ["accept", p] =>
       match float? p with
       | some p => s!"flag {if I.accept p then 1 else 0}"
